@@ -158,7 +158,8 @@ class C04(Check):
             "every state j > n is identical (structural dump of all serialized members) to the schedule built from the deck with the "
             "bodies inlined, '?' expanded per matching well, at the end of block n in application order; state n is identical up to the "
             "ACTIONX_WELL_EVENT bit; every state j < n_first is identical to its dump before the first application.  Non-trivial: a body "
-            "keyword names a well/group existing at n, n is not the last step; labels count '?' use and strict subsets.")
+            "keyword names a well/group existing at n, n is not the last step; labels count '?' use and strict subsets."
+            " Extended during the build phase: bodies also hold GRUPTREE WLIST UDQ GCONSUMP NEXT COMPLUMP WELSPECS WTMULT; one case in six allows WELPI bodies (current PI supplied to applyAction) and is judged on the immutability half only; one case in six scripts an action that creates a new well (WELSPECS + COMPDAT out of track order) at a report step whose own keywords hold COMPORD.")
     ASSUMPTIONS = ["WPIMULT and connection-level WELOPEN / COMPDAT bodies (per-report-step semantics, exempted by the statement) are not generated "
                    "(tried: a COMPDAT body re-opening the only, shut, connection of a well differs in the well status at step n - the exempted "
                    "automatic shut-in class - so COMPDAT bodies were taken out again)",
